@@ -358,6 +358,11 @@ impl FormatString {
 }
 
 fn get_starting_point(file_info: &WalkEntry) -> &Path {
+    // The spelling given on the command line, which the path's ancestors no
+    // longer have (they lose trailing and repeated slashes and "." parts).
+    if let Some(starting_point) = file_info.starting_point() {
+        return starting_point;
+    }
     file_info
         .path()
         .ancestors()
